@@ -4,7 +4,7 @@
 (* session operations and device flows within the bounds and checks fviol = {} (the rules of Flow.tla) in every state.         *)
 EXTENDS Flow
 
-CONSTANTS MaxAttempts, MaxTokens, MaxDevs, MaxSteps, UseRPs, Ops
+CONSTANTS MaxAttempts, MaxTokens, MaxDevs, MaxSteps, UseRPs, Ops, Modes
 VARIABLES cnt        \* [t : attempts, a : access tokens, f : refresh tokens, d : device flows, n : steps]
 dvars == <<fvars, cnt>>
 
@@ -18,10 +18,12 @@ DecideAuthorize(a) == [class |-> IF Has(atts, a.att) THEN "login" ELSE "error"]
 DecideLogin(a) == [class |-> IF Has(atts, a.att) /\ atts[a.att].req /\ ~atts[a.att].code THEN "ok" ELSE "noop"]
 DecideOPCallback(a) ==
   IF Has(atts, a.att) /\ atts[a.att].req /\ atts[a.att].user # "none" /\ ~atts[a.att].redeemed
-  THEN [class |-> "code", stateEcho |-> TRUE, target |-> TRUE] ELSE [class |-> "error", stateEcho |-> FALSE, target |-> FALSE]
+  THEN [class |-> "code", stateEcho |-> TRUE, target |-> TRUE, channel |-> IF atts[a.att].mode = "form_post" THEN "form" ELSE "query"]
+  ELSE [class |-> "error", stateEcho |-> FALSE, target |-> FALSE, channel |-> "none"]
 
 NoTokensOut(class, checked, reqs) ==
-  [class |-> class, sub |-> "none", atSub |-> "none", client |-> "none", at |-> "none", rt |-> "none", idt |-> FALSE, tokenRequests |-> reqs, stateChecked |-> checked]
+  [class |-> class, sub |-> "none", atSub |-> "none", client |-> "none", at |-> "none", rt |-> "none", idt |-> FALSE, tokenRequests |-> reqs, stateChecked |-> checked,
+   stateToApp |-> FALSE]
 
 DecideRPCallback(a) ==
   LET known == Has(atts, a.att)
@@ -31,7 +33,7 @@ DecideRPCallback(a) ==
   IF ~bound THEN NoTokensOut("unauthorized", FALSE, 0)
   ELSE IF t.code /\ ~t.redeemed
        THEN [class |-> "tokens", sub |-> t.user, atSub |-> t.user, client |-> rp, at |-> N("a", cnt.a + 1), rt |-> N("f", cnt.f + 1), idt |-> TRUE,
-             tokenRequests |-> 1, stateChecked |-> TRUE]
+             tokenRequests |-> 1, stateChecked |-> TRUE, stateToApp |-> TRUE]
        ELSE NoTokensOut("error", TRUE, 1)
 
 DecideUserinfo(a) ==
@@ -58,6 +60,11 @@ DecideEndSession(a) ==
   IF sess[p].idt THEN [class |-> "redirect", state |-> TRUE, target |-> IF HasPostLogout(a.rp) THEN "registered" ELSE "default"]
   ELSE [class |-> "error", state |-> FALSE, target |-> "none"]
 
+DecideTokenExchange(a) ==
+  LET p == <<a.b, a.rp>> IN
+  IF Live(p) /\ HasExchange(a.rp) THEN [class |-> "tokens", sub |-> sess[p].sub, at |-> N("a", cnt.a + 1), issuedType |-> "access"]
+  ELSE [class |-> "error", sub |-> "none", at |-> "none", issuedType |-> "none"]
+
 DecideDeviceStart(a) ==
   IF HasDevice(a.rp) THEN [class |-> "device", dc |-> N("d", cnt.d + 1), uriOnIssuer |-> TRUE] ELSE [class |-> "error", dc |-> "none", uriOnIssuer |-> FALSE]
 DecideDeviceApprove(a) == [class |-> IF Has(devs, a.dc) /\ devs[a.dc].status = "pending" THEN "ok" ELSE "noop"]
@@ -73,7 +80,7 @@ Decide(op, a) ==
     [] op = "OPCallback" -> DecideOPCallback(a) [] op = "RPCallback" -> DecideRPCallback(a) [] op = "Userinfo" -> DecideUserinfo(a)
     [] op = "Introspect" -> DecideIntrospect(a) [] op = "Refresh" -> DecideRefresh(a) [] op = "Revoke" -> DecideRevoke(a)
     [] op = "EndSession" -> DecideEndSession(a) [] op = "DeviceStart" -> DecideDeviceStart(a) [] op = "DeviceApprove" -> DecideDeviceApprove(a)
-    [] op = "DevicePoll" -> DecideDevicePoll(a) [] OTHER -> [class |-> "ok"]
+    [] op = "DevicePoll" -> DecideDevicePoll(a) [] op = "TokenExchange" -> DecideTokenExchange(a) [] OTHER -> [class |-> "ok"]
 
 Ev(op, a) == [op |-> op, args |-> a, out |-> Decide(op, a)]
 
@@ -90,7 +97,7 @@ Atts == DOMAIN atts
 SessPairs == {p \in Browsers \X UseRPs : sess[p].at # "none"}
 
 StepsOf(op) ==
-  CASE op = "Start"      -> IF cnt.t < MaxAttempts THEN {Ev(op, [b |-> b, rp |-> rp]) : b \in Browsers, rp \in UseRPs} ELSE {}
+  CASE op = "Start"      -> IF cnt.t < MaxAttempts THEN {Ev(op, [b |-> b, rp |-> rp, mode |-> m]) : b \in Browsers, rp \in UseRPs, m \in Modes} ELSE {}
     [] op = "Authorize"  -> {Ev(op, [att |-> t]) : t \in {x \in Atts : ~atts[x].req}}
     [] op = "Login"      -> {Ev(op, [att |-> t, user |-> u]) : t \in {x \in Atts : atts[x].req /\ atts[x].user = "none"}, u \in Users}
     [] op = "OPCallback" -> {Ev(op, [att |-> t]) : t \in {x \in Atts : atts[x].req /\ ~atts[x].code}}
@@ -99,6 +106,7 @@ StepsOf(op) ==
     [] op = "Userinfo"   -> {Ev(op, [b |-> p[1], rp |-> p[2], claim |-> c]) : p \in SessPairs, c \in {"own", "other"}}
     [] op = "Introspect" -> {Ev(op, [b |-> p[1], rp |-> p[2]]) : p \in SessPairs}
     [] op = "Refresh"    -> IF cnt.a < MaxTokens THEN {Ev(op, [b |-> p[1], rp |-> p[2]]) : p \in SessPairs} ELSE {}
+    [] op = "TokenExchange" -> IF cnt.a < MaxTokens THEN {Ev(op, [b |-> p[1], rp |-> p[2]]) : p \in SessPairs} ELSE {}
     [] op = "Revoke"     -> {Ev(op, [b |-> p[1], rp |-> p[2], kind |-> k]) : p \in SessPairs, k \in {"at", "rt"}}
     [] op = "Expire"     -> {Ev(op, [b |-> p[1], rp |-> p[2]]) : p \in {q \in SessPairs : Live(q)}}
     [] op = "EndSession" -> {Ev(op, [b |-> p[1], rp |-> p[2]]) : p \in SessPairs}
